@@ -17,13 +17,13 @@ var profiles = map[string][]weighted{
 	"election": {{"apply", 15}, {"tick", 8}, {"isolate", 12}, {"partition", 8}, {"oneway", 5}, {"heal", 12}, {"crash", 6}, {"crashop", 10},
 		{"restart", 10}, {"lossy", 6}, {"transfer", 6}, {"reload", 5}, {"addvoter", 1}, {"demote", 1}, {"remove", 2}, {"cutleader", 4}},
 	"snapshot": {{"apply", 35}, {"tick", 6}, {"lagcompact", 8}, {"stalesuffix", 6}, {"snapshot", 8}, {"crash", 6}, {"crashop", 6}, {"restart", 8},
-		{"isolate", 6}, {"heal", 8}, {"restartall", 2}, {"addvoter", 1}, {"remove", 1}, {"demote", 1}, {"transfer", 2}, {"reload", 2}, {"join", 2}, {"flakyreads", 5}},
+		{"isolate", 6}, {"heal", 8}, {"restartall", 2}, {"addvoter", 1}, {"remove", 1}, {"demote", 1}, {"transfer", 2}, {"reload", 2}, {"join", 2}, {"flakyreads", 5}, {"snapcfg", 6}},
 	"durability": {{"apply", 30}, {"tick", 6}, {"restartall", 6}, {"crash", 8}, {"restart", 10}, {"crashop", 8}, {"isolate", 8}, {"partition", 8},
 		{"heal", 10}, {"reload", 4}, {"remove", 1}, {"addvoter", 1}, {"demote", 1}, {"stalesuffix", 4}, {"transfer", 2}, {"lossy", 2}, {"cfgrestart", 5}, {"flakyreads", 3}},
 	"commit": {{"apply", 35}, {"tick", 6}, {"cutleader", 8}, {"partition", 8}, {"isolate", 4}, {"heal", 10}, {"addvoter", 2}, {"addnonvoter", 2},
 		{"demote", 2}, {"remove", 1}, {"crash", 4}, {"restart", 5}, {"barrier", 2}, {"lossy", 2}, {"join", 2}, {"flakyreads", 3}},
 	"membership": {{"apply", 20}, {"tick", 6}, {"addvoter", 9}, {"addnonvoter", 6}, {"demote", 7}, {"remove", 8}, {"transfer", 6}, {"isolate", 6},
-		{"heal", 8}, {"crash", 5}, {"restart", 6}, {"partition", 4}, {"crashop", 4}, {"reload", 2}, {"cutleader", 2}, {"cfgrestart", 3}, {"join", 6}},
+		{"heal", 8}, {"crash", 5}, {"restart", 6}, {"partition", 4}, {"crashop", 4}, {"reload", 2}, {"cutleader", 2}, {"cfgrestart", 3}, {"join", 6}, {"snapcfg", 4}, {"snapshot", 3}},
 	"clients": {{"apply", 45}, {"tick", 5}, {"barrier", 8}, {"transfer", 6}, {"isolate", 5}, {"heal", 6}, {"remove", 2}, {"demote", 1}, {"crash", 4},
 		{"restart", 5}, {"cutleader", 3}, {"lossy", 2}, {"snapshot", 2}, {"inheritedtail", 4}},
 	"verify": {{"verify", 25}, {"cutleader", 10}, {"partition", 8}, {"isolate", 5}, {"heal", 10}, {"apply", 15}, {"lossy", 6}, {"addnonvoter", 2},
@@ -109,6 +109,13 @@ func GenShape(t *rapid.T, p *Program) {
 			f = 1
 		}
 		p.HBms = append(p.HBms, hbBase*f)
+		slow := 0
+		switch prof {
+		case "lease", "leaselong", "prevote", "leasejoin", "notify":
+		default:
+			slow = oneOf(t, "applyMs", 0, 0, 0, 0, 0, 0, 1, 3, 10)
+		}
+		p.ApplyMs = append(p.ApplyMs, slow)
 	}
 	// keep at least two voters in multi-server verify/commit shapes
 	p.RCL = flavourMode >= 3
@@ -196,6 +203,10 @@ func genAction(t *rapid.T, p *Program, ws []weighted) Action {
 	case "inheritedtail":
 		a.N = oneOf(t, "tail", 1, 2, 3, 5)
 		a.Arg = oneOf(t, "fresh", 1, 2, 3)
+	case "snapcfg":
+		a.N = oneOf(t, "burst", 2, 3, 5, 10)
+		a.Arg = rapid.IntRange(0, 3).Draw(t, "change")
+		a.Set = []int{rapid.IntRange(0, p.N-1).Draw(t, "member")}
 	case "cfgrestart":
 		a.N = oneOf(t, "writes", 0, 1, 1, 2, 3)
 		a.Arg = rapid.IntRange(0, 3).Draw(t, "change")
